@@ -903,9 +903,12 @@ def m_to_snake(it, n, a):
     out = ''
     first = True
     for c in s:
-        if c.isupper() and not first:
-            out += '_'
-        out += c.lower()
+        if 'A' <= c <= 'Z':            # is_ascii_uppercase: non-ASCII letters are copied unchanged
+            if not first:
+                out += '_'
+            out += c.lower()
+        else:
+            out += c
         first = False
     return out
 
@@ -1223,13 +1226,34 @@ def m_hs_contains(it, n, a):
     return hs_contains(arg0(a), a[1])
 
 
+def hs_distinct(it, s):
+    """members of the set as a duplicate-free list: symbolic members that may coincide are resolved by forking on the equalities"""
+    items = []
+    for x in s.items:
+        dup = False
+        for y in items:
+            if is_sym(x) or is_sym(y):
+                if it.truth(h_eq(x, y)):
+                    dup = True
+                    break
+            elif x == y:
+                dup = True
+                break
+        if not dup:
+            items.append(x)
+    return items
+
+
 def hash_order_iter(it, s, what):
     """iteration order of a hash set is unspecified: every permutation is possible (chosen by fresh decisions)"""
-    items = list(s.items)
-    if any(is_sym(x) for x in items):
-        # members that may coincide: fork on equalities first so that the list is duplicate-free
-        raise Unsupported('iteration over a hash set with symbolic members')
+    items = hs_distinct(it, s)
     out = []
+    if it.env.get('hash_orders') == 'two' and len(items) > 1:
+        # harness option: insertion order or its reverse only.  Sound for a property that is not about ordering when C18 (output
+        # independent of hash order, decided with EVERY permutation) holds: any single order is then representative.
+        if it.truth(it.fresh('hash_reversed', 'bool')):
+            items.reverse()
+        out, items = items, []
     while items:
         if len(items) > 1:
             pick = it.fresh('hash_pick', 8)
@@ -1250,10 +1274,7 @@ def m_hs_iter(it, n, a):
 
 @model(r'^HashSet::<.*>::len$')
 def m_hs_len(it, n, a):
-    s = arg0(a)
-    if any(is_sym(x) for x in s.items):
-        raise Unsupported('len of a hash set with symbolic members')
-    return len(s.items)
+    return len(hs_distinct(it, arg0(a)))
 
 
 # ---- impure reads: modelled as fresh unknowns and recorded, so that a dependence on them becomes a counterexample
@@ -1331,13 +1352,20 @@ def m_opt_prim_eq(it, n, a):
 @model(r'^<Option<naga::Handle<.*>> as PartialEq>::eq$')
 def m_opt_handle_eq(it, n, a):
     x, y = deref(a[0]), deref(a[1])
-    if is_sym(x.disc) or is_sym(y.disc):
-        raise Unsupported('Option<Handle> eq with symbolic discriminant')
-    if x.disc != y.disc:
+    sx, vx = opt_fork(it, x)
+    sy, vy = opt_fork(it, y)
+    if sx != sy:
         return False
-    if x.disc == 0:
+    if not sx:
         return True
-    return h_eq(x.fields[0], y.fields[0])
+    return h_eq(vx, vy)
+
+
+@model(r' as PartialEq(<.*>)?>::ne$')
+def m_generic_ne(it, n, a):
+    """`ne` of any type whose `eq` is known (derived PartialEq: ne = !eq)"""
+    r = it.call(it.resolve(n[:-2] + 'eq'), a)
+    return z3.Not(r) if is_sym(r) else (not r)
 
 
 def enum_eq(it, x, y):
@@ -2176,7 +2204,23 @@ def m_vec_retain(it, n, a):
 
 @model(r'^Vec::<.*>::dedup$')
 def m_vec_dedup(it, n, a):
-    raise Unsupported(n)
+    """removes CONSECUTIVE equal elements only (as std does); equality of handles / integers / strings through the solver"""
+    v = arg0(a)
+    out = []
+    for x in v.items:
+        if out:
+            px, cx = deref(out[-1]), deref(x)
+            if isinstance(px, (str, SymStr)) or isinstance(cx, (str, SymStr)):
+                same = it.truth(str_eq(it, px, cx))
+            elif isinstance(px, Agg) or isinstance(cx, Agg):
+                raise Unsupported(n + ' on aggregate elements')
+            else:
+                same = it.truth(h_eq(px, cx))
+            if same:
+                continue
+        out.append(x)
+    v.items[:] = out
+    return unit()
 
 
 @model(r'slice::<impl \[.*\]>::(iter_mut)$')
